@@ -59,7 +59,7 @@ TrSupprQuery ==
   /\ Ev("SupprQuery") /\ U
   /\ E.ret = AnyM(E.res)
   /\ IF E.kind = "nofail"
-     THEN QueryNoFail(W, E.ret)
+     THEN E.glob /\ QueryNoFail(W, E.ret)     \* the only place the exit-code suppressions are consulted: all entries, in every worker
      ELSE \/ /\ wk[W].st = "pre" /\ E.dummy /\ E.a = Space(W) /\ E.glob
              /\ DummyQuery(W, E.res)
           \/ /\ wk[W].st = "raw" /\ E.a = Space(W)
@@ -98,7 +98,7 @@ TraceNext ==
   \/ Ev("NewChecker") /\ U /\ NewChecker(W)
   \/ Ev("Next") /\ U /\ StartWorker(W, E.file)
   \/ Ev("Spawn") /\ U /\ Spawn(W, E.file)
-  \/ Ev("ChildStart") /\ U /\ Stutter
+  \/ Ev("ChildStart") /\ U /\ ChildStart(W)
   \/ TrSupprQuery \/ TrSupprAdd \/ TrSupprUpdate
   \/ Ev("SupprMark") /\ U /\ SupprMark(E.a, ToSet(E.keys))
   \/ Ev("CheckBegin") /\ U /\ CheckBegin(W, E.file)
